@@ -298,6 +298,24 @@ def schema_source_rule(ctx):
     ctx.check(seen10 == {"const", "enum"}, "C06.R10", f"{lit.qualname}:forms", lit.node.body[0], f"literal() no longer emits both forms (found {sorted(seen10)})", lit, lit.node, detail="const and enum")
     ttxt = norm(lit.node)
     ctx.check("JsonType.from_type(type(v)) for v in literal_values(values)" in ttxt, "C06.R10", f"{lit.qualname}:type-source", lit.node.body[0], "the `type` of a literal schema is not computed from the JSON types of its values", lit, lit.node, detail="JsonType.from_type(type(v)) over literal_values(values)")
+    # ---------------- R11: discriminated unions under standard JSON Schema semantics
+    ctx.rule("C06.R11", "discriminated union schemas are valid for plain JSON Schema validators (which ignore the OpenAPI `discriminator` keyword): every member admits the discriminator property and fixes its value", floor=2)
+    an_ = model.func(f"{SBB}.annotated")
+    vc_ = model.func(f"{SBB}.visit_conversion")
+    a_txt, v_txt = norm(an_.node), norm(vc_.node)
+    # (a) the annotated path must give the members the discriminator property, like the inherited path does
+    inherited_declares = "properties" in v_txt and "discriminator_alias" in v_txt and "required" in v_txt
+    ctx.require(inherited_declares, "visit_conversion no longer declares the discriminator property for inherited discriminators: R11 must be re-derived")
+    annotated_declares = "discriminator" in a_txt and ('"properties"' in a_txt or "properties=" in a_txt)
+    ctx.check(annotated_declares, "C06.R11", f"{an_.qualname}:discriminator-property", None,
+              "Annotated[Union[...], discriminator(alias)] emits `oneOf` of the members' own schemas: a member without a field for the discriminator has additionalProperties: false and no such property, so every datum carrying the discriminator key is invalid for the schema while deserialize requires that key",
+              an_, an_.node, detail="members declare / require the discriminator property")
+    # (b) members fix the value of the discriminator, otherwise `oneOf` members overlap
+    fixes_value = any(isinstance(c, ast.Call) and dotted(c.func) == "json_schema" and any(k.arg in ("const", "enum") for k in c.keywords) and "discriminator" in norm(c) for f_ in (an_, vc_) for c in ast.walk(f_.node)) \
+        or "const" in norm(model.func(f"{SBB}.discriminator_schema").node)
+    ctx.check(fixes_value, "C06.R11", f"{vc_.qualname}:discriminator-values", None,
+              "the discriminator property is typed `string` for every member and its expected value only appears in the OpenAPI `discriminator.mapping`: for a standard validator the `oneOf` members overlap (a datum valid for Cat is valid for Dog when Dog only adds optional fields) and the union schema rejects data deserialize accepts",
+              vc_, vc_.node, detail="const / enum on the discriminator property of each member")
     # ---------------- R9: mapping keys
     ctx.rule("C06.R9", "Mapping schema: every keyword of the key's schema is enforced on property names (the deserializer validates each key with the key type's method)", floor=2)
     mp = model.func(f"{SBB}.mapping")
